@@ -20,6 +20,8 @@ def gen_plan(ctx, prop):
         plans.append(("2x2", dict(BASE), n))
         plans.append(("empty", dict(BASE, EmptyFlows="{2}", MaxSteps="3"), n // 3))
         plans.append(("3nodes", dict(BASE, NFlows="1", NNodes="3", MaxSteps=str(3 + s % 3), MaxCalls="5", MaxResumes="3"), n // 2))
+        # every behaviour of two one-node flows (each node kind in a sub-flow, under every trigger and resume kind)
+        plans.append(("all-2x1", dict(BASE, NNodes="1", MaxSteps="3", MaxCalls="3", TrigKinds='{"manual", "msg"}'), None))
     elif prop == "C05":
         combos = [(1, 0), (2, 1), (3, 3), (4, 2), (1, 2), (2, 0), (5, 1), (3, 1)]
         k = 3 if q else len(combos)
